@@ -12,6 +12,7 @@ From MV Require Model.EnginesHs.   (* qualified: imports both codec models *)
 From MV Require Model.IoEnv Model.TimerRt.   (* qualified: own queue/handler names *)
 
 From MV Require Model.Inbound.   (* qualified: a scheduler model with many short names *)
+From MV Require Model.CtlWrap.   (* qualified: own state/step names on top of Sink *)
 
 Definition run (e : N) (c : list (list N)) : list (list N) :=
   match e with
@@ -29,6 +30,8 @@ Definition run (e : N) (c : list (list N)) : list (list N) :=
   | 41 => Payload.run_payload c
   | 42 => PlStop.run_plstop3 c
   | 43 => PlStop.run_plstop5 c
+  | 44 => CtlWrap.run_ctlwrap3 c
+  | 45 => CtlWrap.run_ctlwrap5 c
   | 13 => Sized.run_sized3 c
   | 23 => Sized.run_sized5 c
   | 38 => EnginesHs.run_hs c
